@@ -17,7 +17,7 @@ structure SeqPre (I : SeqInst) : Prop where
   depotHi : I.g.hi 0 = none
   custHi : ∀ u, 1 ≤ u → u < I.g.nodes.length → leE (I.g.lo 0) (I.g.hi u) = true
 
-/-! ## statement to prove (replace the `sorry`) -/
+/-! ## property theorem -/
 
 /-- **totality**: under the preconditions the sequence-based heuristic never raises, whatever the arc set,
     the vehicle count, the strictness and the high cost -/
